@@ -16,6 +16,7 @@ VERIF = os.path.dirname(os.path.dirname(os.path.abspath(__file__)))
 REPO = os.environ.get('VERIF_REPO', '/repo')
 GUARD = 'NANOLANG_VERIF'
 NCPU = int(os.environ.get('VERIF_JOBS', '16'))
+MAX_REPLAYS = int(os.environ.get('VERIF_MAX_REPLAYS', '4'))
 BASE_CFLAGS = ['-std=c99', '-D_GNU_SOURCE', '-D' + GUARD]
 
 _scratch = None
@@ -43,9 +44,11 @@ class Job:
     entry: str = 'harness'
     unwind: int = None
     unwindset: list = field(default_factory=list)
+    unwind_by_func: dict = field(default_factory=dict)  # {function: [bound of loop 0, loop 1, ...]} applied when the loop count matches
     flags: list = field(default_factory=list)     # extra cbmc flags
     overflow: bool = True          # signed-overflow check (off for language int arithmetic)
     remove_bodies: list = field(default_factory=list)
+    src_remove_bodies: list = field(default_factory=list)  # removed from the real TUs before linking (harness supplies the body)
     timeout: int = 120
     mem_gb: int = 10
     includes: list = field(default_factory=list)  # extra -I (absolute)
@@ -103,7 +106,7 @@ def dflags(d):
 
 def compile_source_gb(src_abs, job):
     """goto-cc -c one real TU, cached per (file, defines)."""
-    key = (src_abs, tuple(sorted(job.src_defines.items())), tuple(job.includes))
+    key = (src_abs, tuple(sorted(job.src_defines.items())), tuple(job.includes), tuple(job.src_remove_bodies))
     with _cc_lock:
         ent = _cc_cache.get(key)
         if ent is None:
@@ -118,8 +121,13 @@ def compile_source_gb(src_abs, job):
         rc, so, se = sh(cmd, timeout=300)
         if rc != 0:
             ent['err'] = 'goto-cc failed for %s:\n%s' % (src_abs, se[-3000:])
-        else:
-            ent['out'] = out
+            return ent['out'], ent['err']
+        for fn in job.src_remove_bodies:
+            rc, so, se = sh(['goto-instrument', '--remove-function-body', fn, out, out], timeout=120)
+            if rc != 0:
+                ent['err'] = 'goto-instrument --remove-function-body %s failed: %s' % (fn, se[-1500:])
+                return ent['out'], ent['err']
+        ent['out'] = out
         return ent['out'], ent['err']
 
 
@@ -151,7 +159,24 @@ def build_job(job):
         if rc != 0:
             return 'goto-instrument failed: ' + se[-2000:]
     job.gb = gb
+    if job.unwind_by_func:
+        loops = show_loops(gb)
+        for fn, bounds in job.unwind_by_func.items():
+            ids = loops.get(fn, [])
+            if len(ids) == len(bounds):
+                job.unwindset = list(job.unwindset) + ['%s:%d' % (i, b) for i, b in zip(ids, bounds)]
+            else:
+                job.detail += 'note: %s has %d loops, harness expected %d (generic unwind used) ' % (fn, len(ids), len(bounds))
     return None
+
+
+def show_loops(gb):
+    """{function: [loop ids in SOURCE ORDER]} (CBMC numbers loops in goto-program order, not source order)."""
+    rc, so, se = sh(['goto-instrument', '--show-loops', gb], timeout=120)
+    tmp = {}
+    for m in re.finditer(r'^Loop (\S+?)\.(\d+):\s*\n\s*file \S+ line (\d+)', so + se, re.M):
+        tmp.setdefault(m.group(1), []).append((int(m.group(3)), int(m.group(2))))
+    return {fn: ['%s.%d' % (fn, n) for (ln, n) in sorted(v)] for fn, v in tmp.items()}
 
 
 def cbmc_cmd(job, extra=()):
@@ -229,6 +254,29 @@ def parse_json_ui(path):
     return {'results': results, 'status': status, 'errors': msgs, 'raw': data}, None
 
 
+def parse_text(path):
+    """Parse cbmc's plain-text result list: '[id] line N description: STATUS' under 'file function f' headers."""
+    try:
+        txt = open(path, 'r', errors='replace').read()
+    except Exception as e:
+        return None, str(e)
+    status = None
+    if 'VERIFICATION SUCCESSFUL' in txt: status = 'success'
+    elif 'VERIFICATION FAILED' in txt: status = 'failure'
+    results, cur_file, cur_fn = [], '?', ''
+    for line in txt.splitlines():
+        m = re.match(r'^(\S.*) function (\S+)$', line)
+        if m:
+            cur_file, cur_fn = m.group(1), m.group(2); continue
+        m = re.match(r'^\[(\S+)\] (?:line (\d+) )?(.*): (SUCCESS|FAILURE|UNKNOWN|ERROR)$', line)
+        if m:
+            results.append({'property': m.group(1), 'description': m.group(3), 'status': m.group(4),
+                            'sourceLocation': {'file': cur_file, 'line': m.group(2) or '?', 'function': cur_fn}})
+    if '(error' in txt or 'CONVERSION ERROR' in txt or 'PARSING ERROR' in txt:
+        status = None
+    return {'results': results, 'status': status}, None
+
+
 def is_witness(r):
     return (r.get('description') or '').startswith('WITNESS')
 
@@ -241,14 +289,14 @@ def run_one(job):
         return job
     if job.smt:
         return run_one_smt(job, t0)
-    out = os.path.join(scratch(), os.path.basename(job.gb) + '.json')
-    rc, wall, rss = run_limited(cbmc_cmd(job, ['--json-ui']), job.timeout, job.mem_gb, out)
+    out = os.path.join(scratch(), os.path.basename(job.gb) + '.out')
+    rc, wall, rss = run_limited(cbmc_cmd(job), job.timeout, job.mem_gb, out)
     job.wall, job.rss_mb = time.time() - t0, rss
     job.solver_s = wall
     if rc == 124:
         job.status, job.detail = 'inconclusive', 'timeout after %ds' % job.timeout
         return job
-    parsed, perr = parse_json_ui(out)
+    parsed, perr = parse_text(out)
     if perr or parsed['status'] is None:
         tail = open(out, 'r', errors='replace').read()[-1500:]
         job.status, job.detail = 'inconclusive', 'cbmc rc=%s %s\n%s' % (rc, perr or 'no verdict (out of memory / error)', tail)
@@ -256,7 +304,8 @@ def run_one(job):
     res = parsed['results']
     job.nprops = len(res)
     bad = [r for r in res if r['status'] not in ('SUCCESS', 'FAILURE')]
-    if bad:
+    anyfail = [r for r in res if r['status'] == 'FAILURE' and not is_witness(r)]
+    if bad and not anyfail:
         job.status, job.detail = 'inconclusive', 'property status %s' % bad[0]['status']
         return job
     wit = [r for r in res if is_witness(r)]
@@ -325,23 +374,34 @@ def run_one_smt(job, t0):
 def get_trace_inputs(job, prop):
     """Re-run cbmc for one failed property with --trace and collect the assignment to the harness inputs
     (variables named in_*)."""
-    out = os.path.join(scratch(), os.path.basename(job.gb) + '.trace.json')
-    rc, wall, rss = run_limited(cbmc_cmd(job, ['--json-ui', '--trace', '--property', prop]), job.timeout * 2, job.mem_gb, out)
-    parsed, perr = parse_json_ui(out)
-    if perr:
+    out = os.path.join(scratch(), os.path.basename(job.gb) + '.trace.txt')
+    rc, wall, rss = run_limited(cbmc_cmd(job, ['--trace', '--property', prop]), job.timeout * 2, job.mem_gb, out)
+    try:
+        txt = open(out, 'r', errors='replace').read()
+    except Exception:
+        return None
+    if 'Trace for' not in txt and 'Counterexample' not in txt:
         return None
     inputs = {}
-    for r in parsed['results']:
-        if r.get('property') != prop or 'trace' not in r:
+    for line in txt.splitlines():
+        m = re.match(r'^\s+(in_[A-Za-z0-9_]+)((?:\[\d+l?\])*)((?:\.[A-Za-z0-9_]+)*)=(.*)$', line)
+        if not m:
             continue
-        for s in r['trace']:
-            if s.get('stepType') != 'assignment':
-                continue
-            lhs = s.get('lhs', '')
-            m = re.match(r'^(in_[A-Za-z0-9_]+)((\[\d+\])*)(\.[A-Za-z0-9_.]+)?$', lhs)
-            if not m:
-                continue
-            _collect(inputs, lhs, s.get('value', {}))
+        base, idx, mem, rhs = m.group(1), re.sub(r'l\]', ']', m.group(2)), m.group(3), m.group(4)
+        b = re.search(r'\(([01{}, ]+)\)\s*$', rhs)
+        if not b:
+            continue
+        bits = b.group(1)
+        if '{' in bits:
+            parts = [x.strip() for x in bits.replace('{', '').replace('}', '').split(',') if x.strip()]
+            for i, pb in enumerate(parts):
+                pb = pb.replace(' ', '')
+                if pb and set(pb) <= {'0', '1'}:
+                    inputs['%s%s[%d]%s' % (base, idx, i, mem)] = int(pb, 2)
+        else:
+            pb = bits.replace(' ', '')
+            if pb:
+                inputs['%s%s%s' % (base, idx, mem)] = int(pb, 2)
     return inputs
 
 
@@ -436,7 +496,7 @@ def finish(pid, tier, level, jobs, meta, t0, custom_replay=None, extra_cov=None,
     """Classify results, replay counterexamples, write evidence, print verdict lines, return exit code."""
     known = load_known(pid)
     seed = int(os.environ.get('VERIF_SEED', '0') or 0)
-    violations, known_hits, mismatches = [], [], []
+    violations, known_hits, mismatches, unreplayed = [], [], [], []
     incon = [j for j in jobs if j.status in ('inconclusive', 'vacuous')]
     replays_root = os.path.join(VERIF, 'replays', pid)
     for j in jobs:
@@ -452,7 +512,10 @@ def finish(pid, tier, level, jobs, meta, t0, custom_replay=None, extra_cov=None,
                 unknown.append((f, key))
         if not unknown:
             continue
-        # replay the first unknown failure of this job
+        # replay the first unknown failure of this job (at most MAX_REPLAYS jobs per run; the rest are listed)
+        if len(violations) + len(mismatches) >= MAX_REPLAYS:
+            unreplayed.append((j, unknown))
+            continue
         f, key = unknown[0]
         outdir = os.path.join(replays_root, re.sub(r'[^A-Za-z0-9_.-]', '_', j.name))
         shutil.rmtree(outdir, ignore_errors=True)
@@ -544,6 +607,8 @@ def finish(pid, tier, level, jobs, meta, t0, custom_replay=None, extra_cov=None,
         j, f, key, outdir, why = v
         print('VIOLATION property=%s replay=%s' % (pid, outdir))
         print('  instance=%s failed="%s" at %s key=%s :: %s' % (getattr(j, 'name', j), f['description'], f.get('loc'), key, why))
+    for (j, unknown) in unreplayed:
+        print('ALSO-FAILED (not replayed, replay cap reached): property=%s job=%s %s' % (pid, j.name, [u[0]['description'] for u in unknown][:3]))
     print('SUMMARY property=%s tier=%s queries=%d proved=%d cex=%d known=%d inconclusive=%d violations=%d wall=%.0fs'
           % (pid, tier, len(jobs), len(proved), len([j for j in jobs if j.status == 'cex']), len(known_hits),
              len(incon), len(violations), time.time() - t0))
